@@ -21,6 +21,7 @@ import (
 	"context"
 	"fmt"
 	"math/rand"
+	"strings"
 	"sync"
 	"sync/atomic"
 	"time"
@@ -28,7 +29,114 @@ import (
 	kafka "github.com/segmentio/kafka-go"
 )
 
+// runRefresh: kinds refresh-silent (mode t) and w-refresh-silent (mode w), tags
+// connect-race-family and refresh-silent-family: after the connection set-up, the first
+// Metadata answer and one warm-up call, the fake never answers a Metadata request again (it
+// keeps its side open).  The Transport's background refresh must give the connection it uses
+// the deadline of the refresh (MetadataTTL): after 3-4 TTLs and CloseIdleConnections (mode w:
+// Writer.Close, then CloseIdleConnections, the Transport is not owned by the Writer because
+// NewWriter dials with a real net.Dialer) no connection goroutine may be left.
+func runRefresh(sc scen) result {
+	rng := rand.New(rand.NewSource(sc.seed))
+	kind := sc.kind
+	tl := &tline{}
+	e := newEnv(sc, tl)
+	ft := e.ft
+	ft.add("kind=" + kind)
+	ft.add("fake=wfake")
+	ft.add("connect-race-family")
+	ft.add("refresh-silent-family")
+	ft.add("broker=silent")
+
+	fake := newWfake(map[string]int{topicT: 1})
+	ttl := ms(rr(rng, 200, 300))
+	dialTO := ms(rr(rng, 100, 300))
+	idleTO := ms(rr(rng, 100, 200))
+	var armed int32
+	fake.journal = func(api string) {
+		if api == "metadata" {
+			tl.rec("qmd:0")
+		}
+	}
+	fake.fault = func(api string, auto bool) wfault {
+		if api == "metadata" && atomic.LoadInt32(&armed) != 0 {
+			return wfault{silent: true}
+		}
+		return wfault{}
+	}
+	largest := maxDur(ttl, maxDur(dialTO, idleTO))
+	e.wd = maxDur(e.wd, 4*(ttl+dialTO+idleTO))
+	grace := maxDur(1500*time.Millisecond, 3*largest)
+
+	e.baseline()
+	tr := &kafka.Transport{
+		Dial:        e.cc.wrap(fake.dial),
+		DialTimeout: dialTO,
+		IdleTimeout: idleTO,
+		MetadataTTL: ttl,
+		ClientID:    clientU,
+	}
+	vlogf("scenario %d: mode=%s kind=%s ttl=%v dialTO=%v idleTO=%v wd=%v", sc.id, sc.mode, kind, ttl, dialTO, idleTO, e.wd)
+	wait := time.Duration(rr(rng, 300, 400)) * ttl / 100 // 3-4 TTLs
+	if sc.mode == "w" {
+		ft.add("owned-transport=no")
+		w := &kafka.Writer{
+			Addr:         kafka.TCP(wfakeAddr),
+			Topic:        topicT,
+			Balancer:     &kafka.RoundRobin{},
+			MaxAttempts:  1,
+			BatchTimeout: ms(rr(rng, 1, 5)),
+			BatchSize:    1,
+			WriteTimeout: ms(500),
+			ReadTimeout:  ms(200),
+			RequiredAcks: kafka.RequireOne,
+			Transport:    tr,
+		}
+		if e.call('w', polAfter, 2*time.Second, "nil", func(ctx context.Context) error {
+			return w.WriteMessages(ctx, kafka.Message{Value: []byte("v")})
+		}) != "nil" {
+			ft.add("warmup-failed")
+		}
+		atomic.StoreInt32(&armed, 1)
+		time.Sleep(wait)
+		if e.doClose(1, func() { w.Close() }) {
+			e.doClose(2, tr.CloseIdleConnections)
+		}
+	} else {
+		cl := &kafka.Client{Addr: kafka.TCP(wfakeAddr), Transport: tr}
+		if e.call('t', polAfter, 2*time.Second, "nil", func(ctx context.Context) error {
+			_, err := cl.Produce(ctx, &kafka.ProduceRequest{
+				Topic:        topicT,
+				Partition:    0,
+				RequiredAcks: kafka.RequireOne,
+				Records:      kafka.NewRecordReader(kafka.Record{Value: kafka.NewBytes([]byte("v"))}),
+			})
+			return err
+		}) != "nil" {
+			ft.add("warmup-failed")
+		}
+		atomic.StoreInt32(&armed, 1)
+		time.Sleep(wait)
+		e.doClose(1, tr.CloseIdleConnections)
+	}
+	// a refresh that is in flight keeps its connection until its own deadline (one TTL)
+	quiet := largest + ms(300)
+	toks, res := e.finish(quiet, grace, func() {
+		ft.add(fmt.Sprintf("fake-open=%x", fake.open()))
+		fake.close()
+	})
+	deriveTags(toks, ft)
+	return result{
+		args:  fmt.Sprintf("%s - ; %s", sc.mode, joinToks(toks)),
+		res:   res,
+		feats: ft.String(),
+	}
+}
+
 func runCR(sc scen) result {
+	if strings.HasSuffix(sc.kind, "refresh-silent") {
+		return runRefresh(sc)
+	}
 	rng := rand.New(rand.NewSource(sc.seed))
 	kind := sc.kind
 	tl := &tline{}
